@@ -21,6 +21,14 @@
 (*                     <- deviation SimulateRunsMsgOnRoot                  *)
 (* Both deviations are switches so that the repaired behaviour can be      *)
 (* model-checked too.                                                      *)
+(*                                                                         *)
+(* A second node-local memory is followed next to the LRU: what the node   *)
+(* believes about the signature of a FORGED transaction F (well-formed,    *)
+(* junk signature).  CheckTx verifies signatures, simulation skips the     *)
+(* verification by design; neither may leave the node believing that F is  *)
+(* properly signed.  OffChainMayTrustSig = TRUE is the pessimistic         *)
+(* generator (an off-chain request with F makes node A trust it), FALSE    *)
+(* the design that holds.  A trusted F delivered in a block takes effect.  *)
 (***************************************************************************)
 EXTENDS Integers, Sequences, FiniteSets, TLC, Json
 
@@ -28,7 +36,8 @@ CONSTANTS MaxBlocks,             \* blocks after the warm-up
           MaxTx,                 \* transactions per block
           MaxOff,                \* off-chain requests per behaviour
           QueryCtxNotPrev,       \* TRUE = as the unrepaired code
-          SimulateRunsMsgOnRoot  \* TRUE = as the unrepaired code
+          SimulateRunsMsgOnRoot, \* TRUE = as the unrepaired code
+          OffChainMayTrustSig    \* TRUE = pessimistic: off-chain handling of a forged transaction may be remembered
 
 Node == {"A", "B"}
 ABSENT == 0          \* record values: 0 absent, 1 staked (2 POKT), 2 staked (3 POKT)
@@ -39,17 +48,18 @@ VARIABLES pool,       \* [Node -> Nat]    POKT moved into the application pool o
           cache,      \* [Node -> -1..2]  X in the process-global LRU
           committed,  \* [Node -> Seq(0..2)]  X at each committed height (index = block number)
           nblocks, noff,
+          trust,      \* [Node -> BOOLEAN] the node believes the signature of the forged transaction F is valid
           inblk,      \* transactions delivered in the block that is being executed (0 = between blocks)
           diverged,   \* some block result or committed state differed so far
           hist
 
-vars == <<pool, root, cache, committed, nblocks, noff, inblk, diverged, hist>>
-view == <<pool, root, cache, committed, nblocks, noff, inblk, diverged>>
+vars == <<pool, root, cache, trust, committed, nblocks, noff, inblk, diverged, hist>>
+view == <<pool, root, cache, trust, committed, nblocks, noff, inblk, diverged>>
 
 Init ==
     /\ pool = [n \in Node |-> 0]
     /\ root = [n \in Node |-> ABSENT] /\ cache = [n \in Node |-> NONE]
-    /\ committed = [n \in Node |-> <<>>]
+    /\ committed = [n \in Node |-> <<>>] /\ trust = [n \in Node |-> FALSE]
     /\ nblocks = 0 /\ noff = 0 /\ inblk = 0 /\ diverged = FALSE /\ hist = <<>>
 
 \* what a consensus-path read of X returns on node n (cache first, then the root store)
@@ -84,7 +94,18 @@ Deliver(kind, lvl) ==
        IN /\ root' = r /\ cache' = ch /\ pool' = p
           /\ diverged' = (diverged \/ d)
           /\ hist' = Append(hist, [a |-> "tx", kind |-> kind, lvl |-> lvl, clsA |-> cls["A"], clsB |-> cls["B"], div |-> d])
-    /\ inblk' = inblk + 1 /\ UNCHANGED <<committed, nblocks, noff>>
+    /\ inblk' = inblk + 1 /\ UNCHANGED <<committed, nblocks, noff, trust>>
+
+\* the forged transaction F in a block: refused by a node that verifies its signature, executed (a
+\* transfer: one more POKT on the pool side of the ledger) by a node that believes it verified
+DeliverForged ==
+    /\ nblocks < MaxBlocks /\ inblk < MaxTx
+    /\ LET cls == [n \in Node |-> IF trust[n] THEN "ok" ELSE "fail"]
+           d   == cls["A"] # cls["B"]
+       IN /\ pool' = [n \in Node |-> IF trust[n] THEN pool[n] + 1 ELSE pool[n]]
+          /\ diverged' = (diverged \/ d)
+          /\ hist' = Append(hist, [a |-> "tx", kind |-> "forged", lvl |-> 0, clsA |-> cls["A"], clsB |-> cls["B"], div |-> d])
+    /\ inblk' = inblk + 1 /\ UNCHANGED <<root, cache, trust, committed, nblocks, noff>>
 
 Commit ==
     /\ inblk >= 1
@@ -92,20 +113,21 @@ Commit ==
        /\ committed' = [n \in Node |-> Append(committed[n], root[n])]
        /\ diverged' = (diverged \/ d)
        /\ hist' = Append(hist, [a |-> "commit", div |-> d])
-    /\ nblocks' = nblocks + 1 /\ inblk' = 0 /\ UNCHANGED <<root, cache, pool, noff>>
+    /\ nblocks' = nblocks + 1 /\ inblk' = 0 /\ UNCHANGED <<root, cache, pool, noff, trust>>
 
 \* ---- off-chain requests, node A only -------------------------------------------
 Off(rec) == noff < MaxOff /\ noff' = noff + 1 /\ hist' = Append(hist, rec) /\ UNCHANGED <<committed, nblocks, inblk, diverged>>
+OffX(rec) == Off(rec) /\ UNCHANGED trust      \* requests that do not carry the forged transaction
 
 \* RPC query through Context.PrevCtx(h): no effect on consensus-visible state
 RpcQuery(h) ==
     /\ h \in 1..Len(committed["A"])
-    /\ Off([a |-> "rpc", h |-> h]) /\ UNCHANGED <<root, cache, pool>>
+    /\ OffX([a |-> "rpc", h |-> h]) /\ UNCHANGED <<root, cache, pool>>
 
 \* ABCI custom query at committed height h
 AbciQuery(h) ==
     /\ h \in 1..Len(committed["A"])
-    /\ Off([a |-> "abci", h |-> h])
+    /\ OffX([a |-> "abci", h |-> h])
     /\ UNCHANGED <<root, pool>>
     /\ cache' = IF QueryCtxNotPrev /\ cache["A"] = NONE /\ committed["A"][h] # ABSENT
                   THEN [cache EXCEPT !["A"] = committed["A"][h]] ELSE cache
@@ -113,20 +135,28 @@ AbciQuery(h) ==
 \* CheckTx of a stake transaction: the ante handler runs on a cache-wrapped store and is
 \* discarded; keeper reads during it may fill the LRU with the CURRENT value (harmless)
 CheckTx(lvl) ==
-    /\ Off([a |-> "checktx", lvl |-> lvl])
+    /\ OffX([a |-> "checktx", lvl |-> lvl])
     /\ UNCHANGED <<root, pool>>
     /\ cache' = [cache EXCEPT !["A"] = Filled("A")]
 
 \* simulation of a stake transaction
 Simulate(lvl) ==
-    /\ Off([a |-> "simulate", lvl |-> lvl])
+    /\ OffX([a |-> "simulate", lvl |-> lvl])
     /\ IF SimulateRunsMsgOnRoot
          THEN /\ root'  = [root EXCEPT !["A"] = StakeRoot("A", lvl)]
               /\ cache' = [cache EXCEPT !["A"] = StakeCache("A", lvl)]
               /\ pool'  = [pool EXCEPT !["A"] = StakePool("A", lvl)]
          ELSE UNCHANGED <<root, pool>> /\ cache' = [cache EXCEPT !["A"] = Filled("A")]
 
+\* CheckTx / simulation of the forged transaction F on node A (lvl 0 marks F in the history)
+OffForged(how) ==
+    /\ Off([a |-> how, lvl |-> 0])
+    /\ trust' = [trust EXCEPT !["A"] = @ \/ OffChainMayTrustSig]
+    /\ UNCHANGED <<root, cache, pool>>
+
 Next ==
+    \/ DeliverForged
+    \/ OffForged("checktx") \/ OffForged("simulate")
     \/ \E lvl \in 1..2 : Deliver("stake", lvl)
     \/ Deliver("transfer", 0)
     \/ Commit
@@ -140,5 +170,5 @@ Spec == Init /\ [][Next]_vars
 \* C11 / C13 at design level: off-chain activity never makes a block differ
 C11_C13_NoDivergence == ~diverged
 \* stronger, state-based: what the next consensus read sees is the same on both nodes
-SameEffective == Eff("A") = Eff("B") /\ root["A"] = root["B"] /\ pool["A"] = pool["B"]
+SameEffective == Eff("A") = Eff("B") /\ root["A"] = root["B"] /\ pool["A"] = pool["B"] /\ trust["A"] = trust["B"]
 =============================================================================
